@@ -331,9 +331,12 @@ fn gen_delegation_method<'s>(
             self.as_ref().borrow().#fn_ident(#(#arguments),*)
         },
         _ => {
+            // `self` / `mut self` / `self: Self` (but not `self: &Self`, which has no `reference` either)
             let takes_self_by_value = matches!(
                 fn_sig.inputs.first(),
-                Some(syn::FnArg::Receiver(receiver)) if receiver.reference.is_none()
+                Some(syn::FnArg::Receiver(receiver))
+                    if receiver.reference.is_none()
+                        && matches!(receiver.ty.as_ref(), syn::Type::Path(ty) if ty.path.is_ident("Self"))
             );
 
             if takes_self_by_value {
